@@ -1,7 +1,8 @@
 (* C04 — every even shard size works and symbol slots never interact. *)
 From Coq Require Import NArith Arith Bool List Lia.
 From RS.Gen Require Import Prelude GenConsts.
-From RS.Model Require Import Field Layout.
+From RS.Model Require Import Field Sched Codec Layout.
+From RS.Proofs Require Import Param Linear.
 Import ListNotations.
 Local Open Scope N_scope.
 
@@ -50,3 +51,21 @@ Proof.
   - clear H. induction (length lo) as [|n IH]; [reflexivity|]. rewrite Nat.add_succ_r. cbn. f_equal. exact IH.
 Qed.
 Print Assumptions C04_placement.
+
+(* slots never interact: for every configuration, engine schedule and lane count, lane k of
+   every output shard of the shard-level codec is the symbol-level codec applied to lane k of
+   the input shards — encode and decode, both rates.  Hence coding shards of any size yields
+   the same symbols as coding every slot on its own. *)
+Theorem C04_slot_encode : forall lanes k e K R w, (k < lanes)%nat -> Forall (fun s => length s = lanes) w ->
+  Forall2 (Rlane lanes k) (encode_high (shard_ops lanes) e K R w) (encode_high sym_ops e K R (map (fun s => nth k s 0) w)) /\
+  Forall2 (Rlane lanes k) (encode_low (shard_ops lanes) e K R w) (encode_low sym_ops e K R (map (fun s => nth k s 0) w)).
+Proof. intros; split; [apply encode_high_lanes|apply encode_low_lanes]; assumption. Qed.
+Print Assumptions C04_slot_encode.
+
+Theorem C04_slot_decode : forall lanes k e K R recv w, (k < lanes)%nat -> Forall (fun s => length s = lanes) w ->
+  Forall2 (Rlane lanes k) (snd (decode_high_work (shard_ops lanes) e K R recv w))
+                          (snd (decode_high_work sym_ops e K R recv (map (fun s => nth k s 0) w))) /\
+  Forall2 (Rlane lanes k) (snd (decode_low_work (shard_ops lanes) e K R recv w))
+                          (snd (decode_low_work sym_ops e K R recv (map (fun s => nth k s 0) w))).
+Proof. intros; split; [apply decode_high_lanes|apply decode_low_lanes]; assumption. Qed.
+Print Assumptions C04_slot_decode.
